@@ -261,13 +261,25 @@ func outcomeFromDump(stderr string, pre *outcome) (outcome, bool) {
 		if g.Has(pkgWP + "(*WorkerPool).Shutdown") {
 			o.ShutdownReturned = false
 		}
-		if g.Has("sync.(*WaitGroup).Wait") && (g.Has("main.runGated") || g.Has("main.runStress") || g.Has(pkgWP+"(*WorkerPool).Start")) {
+		// the harness' own direct call pool.ShutdownComplete.Wait() (exported sync.WaitGroup field) on the main
+		// goroutine, or any goroutine parked inside the exported Start
+		if ownWaitGroupWait(g) || (g.Parked() && g.Has(pkgWP+"(*WorkerPool).Start")) {
 			o.WaitReturned = false
 		}
 	}
 	o.pat = patternOf(gs, nil)
 	o.Pattern = o.pat.String()
 	return o, true
+}
+
+// ownWaitGroupWait: sync.(*WaitGroup).Wait called DIRECTLY by the harness (next frame is main.runGated / main.runStress).
+func ownWaitGroupWait(g gdump.G) bool {
+	for i, f := range g.Frames {
+		if f == "sync.(*WaitGroup).Wait" && i+1 < len(g.Frames) && (strings.HasPrefix(g.Frames[i+1], "main.runGated") || strings.HasPrefix(g.Frames[i+1], "main.runStress")) {
+			return true
+		}
+	}
+	return false
 }
 
 func allParked(stderr string) bool {
